@@ -153,7 +153,7 @@ PairShape(i) ==
             [] OTHER -> << KCall("tk2", <<u, nM1>>),
                            KCall("x_plus_y", <<nM2, v, u>>),
                            KCall("setval_c", <<v, b>>) >>
-    IN [fam |-> "pair", idx |-> i,
+    IN [fam |-> "pair", api |-> "lfric", idx |-> i,
         invokes |-> << Inv(At(NameU, i \div 7), calls) >>]
 NPair == NF * NF * 4
 
@@ -171,7 +171,7 @@ ScalarShape(i) ==
           ELSE << KCall("tk5", <<a, nM1, nM2, u, nM3>>),
                   KCall("setval_c", <<Up(nM1), b>>),
                   KCall("inc_a_times_x", <<b, u>>) >>
-    IN [fam |-> "scalar", idx |-> i,
+    IN [fam |-> "scalar", api |-> "lfric", idx |-> i,
         invokes |-> << Inv(At(NameU, i \div 5), calls) >>]
 NScalar == NS * NS * 2
 
@@ -188,16 +188,53 @@ DoubleShape(i) ==
         u  == At(FieldU, i)
         v  == At(FieldU, (i \div 2) + 6)
         a  == At(ScalarU, i)
-    IN [fam |-> "double", idx |-> i,
+    IN [fam |-> "double", api |-> "lfric", idx |-> i,
         invokes |-> << Inv(n1, Form(f1, u, nM2, a)), Inv(n2, Form(f2, v, u, a)) >>]
 NDouble == NN * NN * 9
 
-CONSTANTS Stride, Offset          \* thinning of the family: every Stride-th shape
-NShapes == NPair + NScalar + NDouble
-ShapeAt(n) ==                      \* n in 0..NShapes-1
+\* --- GOcean families (kernels: gcopy(f, f), gssh(s, f))
+LitGo == <<50, 46, 48, 95, 103, 111, 95, 119, 112>>          \* 2.0_go_wp
+GoScalarU == [i \in DOMAIN ScalarU |-> IF ScalarU[i] = Lit2 THEN LitGo ELSE ScalarU[i]]
+GoPairShape(i) ==
+    LET u == At(FieldU, i)
+        v == At(FieldU, i \div NF)
+        t == (i \div (NF * NF)) % 2
+        a == At(GoScalarU, i)
+        calls ==
+          IF t = 0
+          THEN << KCall("gcopy", <<u, nM1>>), KCall("gssh", <<a, nM2>>),
+                  KCall("gcopy", <<v, u>>) >>
+          ELSE << KCall("gssh", <<a, u>>), KCall("gcopy", <<nM1, v>>),
+                  KCall("gcopy", <<nM2, u>>) >>
+    IN [fam |-> "gopair", api |-> "gocean", idx |-> i,
+        invokes |-> << Inv(At(NameU, i \div 7), calls) >>]
+NGoPair == NF * NF * 2
+GoScalarShape(i) ==
+    LET a == At(GoScalarU, i)
+        b == At(GoScalarU, i \div NS)
+        u == At(FieldU, i)
+    IN [fam |-> "goscalar", api |-> "gocean", idx |-> i,
+        invokes |-> << Inv(At(NameU, i \div 5),
+                           << KCall("gssh", <<a, nM1>>), KCall("gssh", <<b, nM2>>),
+                              KCall("gcopy", <<u, nM1>>) >>),
+                       Inv(At(NameU, i \div 3), << KCall("gssh", <<b, nM1>>) >>) >>]
+NGoScalar == NS * NS
+
+CONSTANTS Api,                    \* "lfric" | "gocean" | "all"
+          Stride, Offset          \* thinning of the family: every Stride-th shape
+NLfric  == NPair + NScalar + NDouble
+NGocean == NGoPair + NGoScalar
+LfricShape(n) ==
     IF n < NPair THEN PairShape(n)
     ELSE IF n < NPair + NScalar THEN ScalarShape(n - NPair)
     ELSE DoubleShape(n - NPair - NScalar)
+GoceanShape(n) == IF n < NGoPair THEN GoPairShape(n) ELSE GoScalarShape(n - NGoPair)
+NShapes == CASE Api = "lfric" -> NLfric [] Api = "gocean" -> NGocean
+             [] OTHER -> NLfric + NGocean
+ShapeAt(n) ==                      \* n in 0..NShapes-1
+    CASE Api = "lfric" -> LfricShape(n)
+      [] Api = "gocean" -> GoceanShape(n)
+      [] OTHER -> IF n < NLfric THEN LfricShape(n) ELSE GoceanShape(n - NLfric)
 ShapeIds == {n \in 0..(NShapes - 1) : n % Stride = Offset % Stride}
 
 \* ------------------------------------------------------------------ Part 3
